@@ -244,3 +244,27 @@ pub fn run_battery(bytes: &[u8], strict_alloc: bool) -> Result<Outcome, Fail> {
     }
     Ok(out)
 }
+
+/// Entry point of the libFuzzer targets: runs the battery on one file and
+/// aborts (libFuzzer then keeps the input as an artifact) unless the verdict
+/// is clean or carries the exact signature of an open known finding.  Without
+/// the allowlist a campaign rediscovers the one known dependency panic over
+/// and over and each job stops at it.  The first call replaces libfuzzer-sys's
+/// abort-on-panic hook by the harness's recording hook so that the battery's
+/// `catch_unwind` sees the panic and can name its location.
+pub fn fuzz_judge(bytes: &[u8]) {
+    static KNOWN: std::sync::OnceLock<Vec<String>> = std::sync::OnceLock::new();
+    let known = KNOWN.get_or_init(|| {
+        crate::engine::install_panic_hook();
+        let dir = std::env::var("VERIF_DIR").unwrap_or_else(|_| "/verif".into());
+        let f = crate::findings::Findings::load(&dir);
+        f.open.iter().flat_map(|o| std::iter::once(o.signature.clone()).chain(o.also.iter().cloned())).collect()
+    });
+    if let Err(f) = run_battery(bytes, false) {
+        if known.iter().any(|k| *k == f.sig) {
+            return;
+        }
+        eprintln!("{}: {}", f.sig, f.detail);
+        std::process::abort();
+    }
+}
